@@ -523,16 +523,22 @@ def mc_exec(run):
     """Exec.tla: goroutines / channels / context of the exchange topology; with the repaired Exec (Recheck) every
     property must hold, and the pinned behaviour (no re-check) must violate NoPartialSuccess (non-vacuity)."""
     quick = run.tier == "quick"
-    base = "SPECIFICATION Spec\nCONSTANTS\n S = %d\n K = %d\n Cap = 2\n Recheck = %s\n Faults = TRUE\nINVARIANTS TypeOK NoPartialSuccess SuccessIsComplete ErrorSurfaces\nPROPERTIES ExecReturns GoroutinesExit\n"
-    ok, out, st = vlib.model_check(run, "Exec", base % (2, 2 if quick else 3, "TRUE"), "exec", timeout=1500)
+    base = ("SPECIFICATION Spec\nCONSTANTS\n S = %d\n K = %d\n Cap = 2\n Recheck = %s\n Faults = TRUE\n RecvSelectsCtx = %s\n"
+            "INVARIANTS TypeOK NoPartialSuccess SuccessIsComplete ErrorSurfaces QuerierClosedAtReturn QuerierBalanced FailedLoadNeverSucceeds\n"
+            "PROPERTIES ExecReturns GoroutinesExit\n")
+    ok, out, st = vlib.model_check(run, "Exec", base % (2, 2 if quick else 3, "TRUE", "FALSE"), "exec", timeout=1500)
     if not ok:
         # a model-level counterexample is not a verdict: it has to be reproduced on the real code (gate mode)
         run.notes.append("Exec.tla reports a counterexample on the model of the current code: " + vlib.tlc_errors(out)[:400])
         log("NOTE: Exec.tla violated at the model level (not a verdict by itself)")
-    ok2, out2, st2 = vlib.model_check(run, "Exec", base % (2, 2, "FALSE"), "exec_nocheck", timeout=600)
-    if ok2:
+    ok2, out2, st2 = vlib.model_check(run, "Exec", base % (2, 2, "FALSE", "FALSE"), "exec_nocheck", timeout=600)
+    if ok2 or "NoPartialSuccess" not in out2:
         raise Infra("non-vacuity: Exec.tla without the context re-check should violate NoPartialSuccess")
-    log("Exec.tla: %d distinct states (current code: %s); without the re-check NoPartialSuccess is violated as expected" % (st["distinct"], "all properties hold" if ok else "VIOLATED"))
+    ok3, out3, st3 = vlib.model_check(run, "Exec", base % (2, 2, "TRUE", "TRUE"), "exec_recvctx", timeout=600)
+    if ok3 or "QuerierClosedAtReturn" not in out3:
+        raise Infra("non-vacuity: Exec.tla with a receive that also selects on ctx.Done should violate QuerierClosedAtReturn")
+    log("Exec.tla: %d distinct states (current code: %s); controls: without the re-check NoPartialSuccess is violated, with a "
+        "ctx-selecting receive QuerierClosedAtReturn is violated, as expected" % (st["distinct"], "all properties hold" if ok else "VIOLATED"))
 
 
 def extreme_params(run, binary):
@@ -558,7 +564,7 @@ def extreme_params(run, binary):
 def fault_check(run, rule_extra, assumptions):
     binary = vlib.build()
     quick = run.tier == "quick"
-    if run.prop in ("C13", "C14", "C15"):
+    if run.prop in ("C13", "C14", "C15", "C17"):
         mc_exec(run)
     if run.prop == "C13":
         extreme_params(run, binary)
